@@ -92,7 +92,7 @@ Section Leaves.
     cbn [mut_check]. unfold int_step_ok. destruct (p_valid mp); [|discriminate]. cbn [andb].
     destruct (Z.eqb z z') eqn:E.
     - intros _. left. apply Z.eqb_eq in E. auto.
-    - cbn [orb]. destruct (can_true mp && cauchy_ok sc ms); [|discriminate]. cbn [andb].
+    - cbn [orb]. destruct (can_true mp); [|discriminate]. cbn [andb].
       intros H. right.
       destruct mn as [a|]; [destruct (Z.leb a z') eqn:Ea; [|discriminate]|];
       (destruct mx as [b|]; [destruct (Z.leb z' b) eqn:Eb; [|discriminate]|]);
